@@ -9,8 +9,13 @@
 (*                                 goroutine of its own (VERIF_REFRESH=1): its *)
 (*                                 two reads of the persisted totals are gates *)
 (* is emitted as a scenario, followed by the fixed suffix                      *)
-(*   restart; for each peer: reconnect, credit Thr, pay                        *)
-(* which observes the restored totals and the first cheque after the restart.  *)
+(*   restart; for each peer: reconnect, pay, credit Thr, pay                   *)
+(* which observes the restored totals, whether a payment right after the       *)
+(* reconnect handshake (nothing new consumed) issues a cheque, and the first    *)
+(* cheque for new traffic after the restart.                                    *)
+(* VERIF_PRIOR=1: before the concurrent phase peer 1 has already been paid once *)
+(* (credit Thr, pay, credit Thr): the payment that is cut by the restart is     *)
+(* then not the first cheque to that peer.                                      *)
 (* par.lost tells whether the model itself predicts a forgotten update for the *)
 (* behaviour (the lost update  start1 start2 persist2 persist1  is expected);  *)
 (* only the real code decides.                                                 *)
@@ -40,8 +45,13 @@ Choices(t) ==
 
 \* sequential prefix: with a payer, peer 1 is owed the threshold already
 \* (likewise with a refresher: the refresh only visits peers that have a record)
-Pre == IF WithPay \/ WithRefresh THEN <<[p |-> 1, x |-> Thr]>> ELSE <<>>
-Start0 == IF WithPay \/ WithRefresh THEN [Credit(InitS, "owed", 1, Thr) EXCEPT !.ack = InitS.ack] ELSE InitS
+Prior == EnvOr("VERIF_PRIOR", "0") = "1"
+PreCredit == [op |-> "credit", p |-> 1, x |-> Thr]
+Pre == IF Prior THEN <<PreCredit, [op |-> "pay", p |-> 1, x |-> 0], PreCredit>>
+       ELSE IF WithPay \/ WithRefresh THEN <<PreCredit>> ELSE <<>>
+Start0 == IF Prior
+          THEN [Credit(PaySeq(Credit(InitS, "owed", 1, Thr), 1, TRUE), "owed", 1, Thr) EXCEPT !.ack = InitS.ack, !.ackSent = InitS.ackSent]
+          ELSE IF WithPay \/ WithRefresh THEN [Credit(InitS, "owed", 1, Thr) EXCEPT !.ack = InitS.ack] ELSE InitS
 
 GInit == S = Start0 /\ res = [op |-> "init"] /\ nops = 0 /\ hist = <<>> /\ cnt = [t \in GThreads |-> 0]
 
@@ -67,7 +77,8 @@ GSpec == GInit /\ [][GNext]_<<vars, nops, hist, cnt>>
 
 RECURSIVE SuffixFrom(_)
 SuffixFrom(p) == IF p > NP THEN <<>>
-                 ELSE <<[op |-> "reconnect", p |-> p], [op |-> "credit", p |-> p, x |-> Thr], [op |-> "pay", p |-> p]>> \o SuffixFrom(p + 1)
+                 ELSE <<[op |-> "reconnect", p |-> p], [op |-> "pay", p |-> p],
+                        [op |-> "credit", p |-> p, x |-> Thr], [op |-> "pay", p |-> p]>> \o SuffixFrom(p + 1)
 Suffix == <<[op |-> "restart"]>> \o SuffixFrom(1)
 
 \* does the model predict that a restart now forgets an acknowledged update?
